@@ -2,7 +2,7 @@
 # confirm_seed.sh <PROP> <mutN> : independently confirm a seeded change in the scratch worktree /tmp/wt/<PROP>
 # (suite green with the change, demo fails with it and passes without), then store it under /verif/seeded/<PROP>-<mutN>/
 set -u
-P=$1; M=$2; WT=/tmp/wt/$P; SRC=/tmp/wtout/$P/$M; OUT=/verif/seeded/$P-$M
+P=$1; M=$2; WT=${WTROOT:-/tmp/wt}/$P; SRC=${OUTROOT:-/tmp/wtout}/$P/$M; OUT=/verif/seeded/$P-${TAG:-}$M
 export CARGO_NET_OFFLINE=true
 cd $WT || exit 2
 git checkout -q -- . ; rm -f tests/demo_mut.rs
